@@ -99,6 +99,25 @@ Proof.
 Qed.
 Print Assumptions c05_base_table.
 
+(* Subsequence::iter of Sequence::split_at_checked (iterator as repaired in /repo e98d36d): for
+   every packed buffer and every range [start, end) inside it, the bases yielded are exactly
+   bases start..end of the decoded nibble sequence -- odd/even starts and ends, empty ranges,
+   single-byte windows included. *)
+Theorem c05_subsequence_iter_exact :
+  forall packed start end_,
+    start <= end_ -> end_ <= 2 * lenN packed ->
+    sub_iter packed start end_ = firstnN (end_ - start) (skipN start (unpack_bases packed)).
+Proof. exact subsequence_iter_exact. Qed.
+Print Assumptions c05_subsequence_iter_exact.
+
+(* the regression case: ACGT split at 1 -> "A" / "CGT"; a 1-base sequence split at 1 -> "A" / "" *)
+Example c05_example_subsequence :
+  (sub_iter (pack_bases [65; 67; 71; 84]) 0 1 = [65]) /\
+  (sub_iter (pack_bases [65; 67; 71; 84]) 1 4 = [67; 71; 84]) /\
+  (sub_iter (pack_bases [65]) 1 1 = []) /\
+  (sub_iter (pack_bases [65; 67; 71; 84; 65]) 2 5 = [71; 84; 65]).
+Proof. vm_compute. repeat split; reflexivity. Qed.
+
 (* lazy = eager: full statement (not proved in this revision; the slice arithmetic is modelled
    in NV.Bam.Decode (the lz_ definitions), the agreement is checked on the implementation by the harness) *)
 Definition c05_lazy_eq_eager_full_statement : Prop :=
